@@ -174,13 +174,12 @@ func vfRunC07Case(env *vfEnv, part *vfPart, caseNo int) {
 					cmin = int(bh.Count)
 				}
 			}
-			if depth-1 <= cmin {
-				continue
-			}
 			rk := restored.find(bk.Db, bk.Key)
 			for _, bh := range bk.Holds {
 				if rk == nil || rk.hold(bh.LockId) == nil {
-					notReadmitted[fmt.Sprintf("%d/%x/%x", bk.Db, bk.Key, bh.LockId)] = true
+					if depth-1 > cmin || ph.replayOrderRefuses(bk.Db, bk.Key, bh.LockId, now) {
+						notReadmitted[fmt.Sprintf("%d/%x/%x", bk.Db, bk.Key, bh.LockId)] = true
+					}
 				}
 			}
 		}
@@ -207,7 +206,13 @@ func vfRunC07Case(env *vfEnv, part *vfPart, caseNo int) {
 						rh = rk.hold(ch.LockId)
 					}
 					if rh == nil {
-						fs = append(fs, vfE4Finding{Clause: "carried-hold-lost", Sig: carriedSig(ck.Db, ck.Key), Detail: fmt.Sprintf("%s L%d was restored by restart %d and is still alive (deadline %d, restart at %d) but is not held after restart %d", vfSnapKeyName(ck), vfLockIdIndex(ch.LockId), round, bh.Deadline, now, round+1)})
+						lostSig := carriedSig(ck.Db, ck.Key)
+						if lostSig == "" && ph.replayOrderRefuses(ck.Db, ck.Key, ch.LockId, now) {
+							// log-order manifestation of the admission finding (see vfpersist_test.go)
+							lostSig = "key-held-by-more-than-its-smallest-count-admits"
+							notReadmitted[fmt.Sprintf("%d/%x/%x", ck.Db, ck.Key, ch.LockId)] = true
+						}
+						fs = append(fs, vfE4Finding{Clause: "carried-hold-lost", Sig: lostSig, Detail: fmt.Sprintf("%s L%d was restored by restart %d and is still alive (deadline %d, restart at %d) but is not held after restart %d", vfSnapKeyName(ck), vfLockIdIndex(ch.LockId), round, bh.Deadline, now, round+1)})
 						continue
 					}
 					tol := vfDeadlineTolerance(bh.EFlag)
